@@ -100,7 +100,7 @@ def resolve_port(circ, port: str):
     return io[int(idx)] if idx else io
 
 
-def run_history(rec: Rec, make, rnd: random.Random, cycles: int, case: dict, klass: str = "", drain: int = 0, prop_tag: str = ""):
+def run_history(rec: Rec, make, rnd: random.Random, cycles: int, case: dict, klass: str = "", drain: int = 0, prop_tag: str = "", san_rec: Rec | None = None):
     """Run one history. `make(rnd)` returns (dut, model). Returns number of monitored cycles."""
     dm = DependencyManager()
     log: collections.deque = collections.deque(maxlen=12)
@@ -119,6 +119,9 @@ def run_history(rec: Rec, make, rnd: random.Random, cycles: int, case: dict, kla
             rec.check("constructs", False, klass=klass, case=case, detail=traceback.format_exc()[-1500:])
             return 0
         rec.check("constructs", True)
+        if san_rec is not None:
+            from ..txsan import attach
+            attach(sim, san_rec, case)
 
         async def drv(ctx):
             ios = {p: resolve_port(circ, p) for p in model.ports}
